@@ -67,6 +67,8 @@ def gen_workflow(rng: random.Random, opts=None):
             'opt_fail': rng.random() < opts.get('p_optfail', 0.3),
             'custom': custom,
             'opt_custom': [c for c in custom if rng.random() < 0.4],
+            'exec_retries': rng.choice([0, 0, 0, 1, 2]) if opts.get('retries', True) else 0,
+            'sub_retries': rng.choice([0, 0, 0, 1]) if opts.get('retries', True) else 0,
         }
     icp = rng.choice([1, 1, 3])
     fcp = icp + rng.randint(1, opts.get('max_span', 4))
@@ -95,6 +97,8 @@ def gen_workflow(rng: random.Random, opts=None):
                 for out in outs:
                     if i < j:
                         cands.append({'t': t, 'out': out})
+                        if rec not in ('R1', 'R1/$', 'R1/+P1') and rng.random() < opts.get('p_abs', 0.08):
+                            cands.append({'t': t, 'out': out, 'off': '^'})
                     if rec not in ('R1', 'R1/$', 'R1/+P1') and rng.random() < opts.get('p_intercycle', 0.35):
                         cands.append({'t': t, 'out': out, 'off': rng.choice(offs)})
             if not cands or rng.random() < 0.15:
@@ -108,6 +112,9 @@ def gen_workflow(rng: random.Random, opts=None):
             expr = gen_expr(rng, picks)
             lines.append(render_expr(expr, prof) + ' => ' + rhs_text(rhs))
             used.add(rhs)
+            fails = [c for c in cands if c['out'] == 'failed' and c.get('off') is None]
+            if fails and not prof[rhs]['opt_fail'] and rng.random() < opts.get('p_suicide', 0.25):
+                lines.append(render_trigger(fails[0], prof) + ' => !' + rhs)
             for pk in picks:
                 used.add(pk['t'])
                 if pk.get('off') and rhs_text(pk['t']) not in lines:
@@ -128,10 +135,27 @@ def gen_workflow(rng: random.Random, opts=None):
         graph_txt += f'        {rec} = """\n{body}\n        """\n'
     runtime = ''
     for t in sorted(mentioned):
+        body = ''
+        if prof[t]['exec_retries']:
+            body += f"        execution retry delays = {prof[t]['exec_retries']}*PT0S\n"
+        if prof[t]['sub_retries']:
+            body += f"        submission retry delays = {prof[t]['sub_retries']}*PT0S\n"
         if prof[t]['custom']:
             outs = '\n'.join(f'            {c} = {c}{c}' for c in prof[t]['custom'])
-            runtime += f'    [[{t}]]\n        [[[outputs]]]\n{outs}\n'
+            body += f'        [[[outputs]]]\n{outs}\n'
+        if body:
+            runtime += f'    [[{t}]]\n{body}'
     runahead = rng.choice([0, 1, 1, 2, 3])
+    special = ''
+    seq_tasks = [t for t in sorted(mentioned) if rng.random() < opts.get('p_sequential', 0.12)]
+    if seq_tasks:
+        special = '    [[special tasks]]\n        sequential = ' + ', '.join(seq_tasks) + '\n'
+    stop_line = ''
+    if fcp - icp >= 2 and rng.random() < opts.get('p_stop', 0.15):
+        stop_line = f'    stop after cycle point = {rng.randint(icp, fcp - 1)}\n'
+    run_opts = {}
+    if fcp - icp >= 2 and rng.random() < opts.get('p_startcp', 0.15):
+        run_opts['startcp'] = str(rng.randint(icp + 1, fcp - 1))
     flow = f'''[scheduler]
     allow implicit tasks = True
 [scheduling]
@@ -139,13 +163,14 @@ def gen_workflow(rng: random.Random, opts=None):
     initial cycle point = {icp}
     final cycle point = {fcp}
     runahead limit = P{runahead}
-    [[graph]]
+{stop_line}{special}    [[graph]]
 {graph_txt}[runtime]
     [[root]]
         [[[simulation]]]
             default run length = PT0S
 {runtime}'''
-    return {'flow': flow, 'prof': prof, 'tasks': sorted(mentioned), 'icp': icp, 'fcp': fcp, 'runahead': runahead}
+    return {'flow': flow, 'prof': prof, 'tasks': sorted(mentioned), 'icp': icp, 'fcp': fcp, 'runahead': runahead,
+            'opts': run_opts}
 
 
 def gen_policy(rng, wf, kind='complete'):
@@ -154,7 +179,9 @@ def gen_policy(rng, wf, kind='complete'):
     outcomes = {}
     for t in wf['tasks']:
         p = wf['prof'][t]
-        oc = {'custom': [c + c for c in p['custom']], 'p_custom': 1.0, 'p_fail': 0.0}
+        oc = {'custom': [c + c for c in p['custom']], 'p_custom': 1.0, 'p_fail': 0.0,
+              'exec_retries': p['exec_retries'], 'sub_retries': p['sub_retries'],
+              'p_retry_fail': 0.6}
         if kind == 'complete':
             if p['opt_fail']:
                 oc['p_fail'] = 0.4
@@ -178,7 +205,7 @@ def gen_policy(rng, wf, kind='complete'):
 def gen_case(seed: int, kind='complete', opts=None):
     rng = random.Random(seed)
     wf = gen_workflow(rng, opts)
-    return {'id': f'{kind}{seed}', 'flow': wf['flow'], 'seed': seed,
+    return {'id': f'{kind}{seed}', 'flow': wf['flow'], 'seed': seed, 'opts': wf['opts'],
             'policy': gen_policy(rng, wf, kind), 'ops': None, 'kind': kind}
 
 
